@@ -224,3 +224,156 @@ Proof. reflexivity. Qed.
 Example pick_base_fallback :
   get_text 2 [1; 2] 3 [[104]] [(2, [[]]); (1, [])] = ([[104]], 3).
 Proof. reflexivity. Qed.
+
+(* ---- single-text accessor, category names, set_run_result ------------------------------------------------- *)
+
+(* run.GetText: the first element of what the chain picks for the singleton base value *)
+Lemma get_text1_spec cl allowed base native tr :
+  exists out used,
+    spec_pick cl allowed base [native] tr out used
+    /\ out <> []
+    /\ get_text1 cl allowed base native tr = (hd [] out, used).
+Proof.
+  unfold get_text1.
+  pose proof (get_text_spec cl allowed base [native] tr) as H.
+  pose proof (get_text_single_nonempty cl allowed base native tr) as Hne.
+  destruct (get_text cl allowed base [native] tr) as [out used]. cbn in Hne.
+  exists out, used. repeat split; assumption.
+Qed.
+
+(* routeToCategory: the localized category name is GetText(category, "name", "") *)
+Lemma category_localized_spec cl allowed base tr :
+  exists out used,
+    spec_pick cl allowed base [[]] tr out used
+    /\ category_localized cl allowed base tr = hd [] out.
+Proof.
+  unfold category_localized.
+  destruct (get_text1_spec cl allowed base [] tr) as (out & used & Hs & _ & He).
+  exists out, used. rewrite He. split; [exact Hs | reflexivity].
+Qed.
+
+Lemma text_eqb_eq a b : text_eqb a b = true <-> a = b.
+Proof.
+  revert b; induction a as [|x a IH]; destruct b as [|y b]; cbn; try (split; congruence).
+  rewrite andb_true_iff, N.eqb_eq, IH. split; [intros [-> ->]; reflexivity | intros H; inversion H; auto].
+Qed.
+
+(* SetRunResultAction: the chain's choice for the category, reported as "" when it is the category itself *)
+Lemma set_run_result_category_spec cl allowed base category tr :
+  exists out used,
+    spec_pick cl allowed base [category] tr out used
+    /\ (hd [] out = category -> set_run_result_category_localized cl allowed base category tr = [])
+    /\ (hd [] out <> category -> set_run_result_category_localized cl allowed base category tr = hd [] out).
+Proof.
+  unfold set_run_result_category_localized.
+  destruct (get_text1_spec cl allowed base category tr) as (out & used & Hs & _ & He).
+  exists out, used. rewrite He. cbn [fst]. split; [exact Hs|].
+  destruct (text_eqb (hd [] out) category) eqn:E.
+  - apply text_eqb_eq in E. split; [reflexivity | intros H; contradiction].
+  - split; [|reflexivity]. intros H. apply text_eqb_eq in H. congruence.
+Qed.
+
+(* ---- independence as non-interference ---------------------------------------------------------------------- *)
+
+(* the text a message gets depends only on its base text and the translations of its text; likewise the
+   attachments and the quick replies: two messages that agree on one property get the same value for it,
+   whatever they hold in the other two *)
+Lemma evaluate_message_noninterference cl allowed base m m' :
+  (m_text m = m_text m' -> tr_text m = tr_text m' ->
+   o_text (evaluate_message cl allowed base m) = o_text (evaluate_message cl allowed base m'))
+  /\ (m_atts m = m_atts m' -> tr_atts m = tr_atts m' ->
+   o_atts (evaluate_message cl allowed base m) = o_atts (evaluate_message cl allowed base m'))
+  /\ (m_qrs m = m_qrs m' -> tr_qrs m = tr_qrs m' ->
+   o_qrs (evaluate_message cl allowed base m) = o_qrs (evaluate_message cl allowed base m')).
+Proof.
+  destruct (evaluate_message_independent cl allowed base m) as (H1 & H2 & H3).
+  destruct (evaluate_message_independent cl allowed base m') as (H1' & H2' & H3').
+  rewrite H1, H2, H3, H1', H2', H3'.
+  repeat split; intros -> ->; reflexivity.
+Qed.
+
+(* ---- explicit language lists: send_broadcast ---------------------------------------------------------------- *)
+
+Lemma evaluate_message_in_independent langs base m :
+  o_text (evaluate_message_in langs base m) = hd [] (fst (get_text_in langs base [m_text m] (tr_text m)))
+  /\ o_atts (evaluate_message_in langs base m) = fst (get_text_in langs base (m_atts m) (tr_atts m))
+  /\ o_qrs (evaluate_message_in langs base m) = fst (get_text_in langs base (m_qrs m) (tr_qrs m)).
+Proof.
+  unfold evaluate_message_in.
+  destruct (get_text_in langs base [m_text m] (tr_text m)) as [a la].
+  destruct (get_text_in langs base (m_atts m) (tr_atts m)) as [b lb].
+  destruct (get_text_in langs base (m_qrs m) (tr_qrs m)) as [c lc].
+  cbn. auto.
+Qed.
+
+(* the value a broadcast holds for one property in language l: the base value for the base language, the stored
+   translation when l has a non-empty one, the base value otherwise *)
+Lemma get_text_in_pair l base native tr :
+  (l = base -> get_text_in [l; base] base native tr = (native, base))
+  /\ (l <> base -> forall ts, lookup tr l = Some ts -> stored_nonempty ts ->
+      get_text_in [l; base] base native tr = (ts, l))
+  /\ (l <> base -> ~ has_translation tr l -> get_text_in [l; base] base native tr = (native, base)).
+Proof.
+  cbn [get_text_in]. rewrite N.eqb_refl.
+  repeat split.
+  - intros ->. rewrite N.eqb_refl. reflexivity.
+  - intros Hne ts Hl Hs. destruct (N.eqb_spec l base) as [E|_]; [contradiction|].
+    destruct (item_translation tr l) as [|t ts'] eqn:E.
+    + apply item_translation_nil_iff in E. exfalso. apply E. exists ts. split; assumption.
+    + assert (Hx : lookup tr l = Some (t :: ts') /\ stored_nonempty (t :: ts'))
+        by (apply item_translation_some; [exact E | discriminate]).
+      destruct Hx as [Hx _]. rewrite Hl in Hx. inversion Hx; subst. reflexivity.
+  - intros Hne Hno. destruct (N.eqb_spec l base) as [E|_]; [contradiction|].
+    apply item_translation_nil_iff in Hno. rewrite Hno. reflexivity.
+Qed.
+
+Lemma broadcast_translations_spec base loc_langs m l o :
+  In (l, o) (broadcast_translations base loc_langs m) ->
+  In l (base :: loc_langs)
+  /\ o_text o = hd [] (fst (get_text_in [l; base] base [m_text m] (tr_text m)))
+  /\ o_atts o = fst (get_text_in [l; base] base (m_atts m) (tr_atts m))
+  /\ o_qrs o = fst (get_text_in [l; base] base (m_qrs m) (tr_qrs m)).
+Proof.
+  unfold broadcast_translations. intros H. apply in_map_iff in H.
+  destruct H as (l' & He & Hin). inversion He; subst.
+  split; [exact Hin|]. apply evaluate_message_in_independent.
+Qed.
+
+(* ---- more non-vacuity ---------------------------------------------------------------------------------------- *)
+
+(* a text translation ["", "x"] counts as a non-empty translation: it wins, the text is empty, and the message
+   reports the language of its attachments (the quirk next to the [""] rule) *)
+Example empty_first_text_translation_wins :
+  let m := {| m_text := [104]; m_atts := [[97]]; m_qrs := [];
+              tr_text := [(2, [[]; [120]])]; tr_atts := []; tr_qrs := [] |} in
+  let o := evaluate_message 2 [2] 1 m in
+  o_text o = [] /\ o_atts o = [[97]] /\ o_lang o = 1.
+Proof. cbn. repeat split. Qed.
+
+(* text-less message: the attachments' language is reported, then the quick replies' *)
+Example locale_falls_through :
+  o_lang (evaluate_message 2 [2] 1 {| m_text := []; m_atts := [[97]]; m_qrs := [[98]];
+                                     tr_text := []; tr_atts := [(2, [[99]])]; tr_qrs := [] |}) = 2
+  /\ o_lang (evaluate_message 2 [2] 1 {| m_text := []; m_atts := []; m_qrs := [[98]];
+                                        tr_text := []; tr_atts := []; tr_qrs := [(2, [[99]])] |}) = 2.
+Proof. split; reflexivity. Qed.
+
+(* a translation of the case arguments with another length than the base is ignored *)
+Example case_arguments_wrong_length :
+  case_arguments 2 [2] 1 [[49]; [50]] [(2, [[51]])] = [[49]; [50]]
+  /\ case_arguments 2 [2] 1 [[49]; [50]] [(2, [[51]; [52]])] = [[51]; [52]].
+Proof. split; reflexivity. Qed.
+
+(* contact language = environment default: the candidate list of the statement is [d; d; base] *)
+Example contact_language_is_default :
+  candidates 2 [2; 3] 1 = [2; 2; 1] /\ get_languages 2 [2; 3] 1 = [2; 1]
+  /\ get_text 2 [2; 3] 1 [[104]] [(3, [[105]])] = ([[104]], 1).
+Proof. repeat split. Qed.
+
+(* a broadcast: base content for the base language, the translation where there is one, base otherwise *)
+Example broadcast_example :
+  map (fun e => (fst e, o_text (snd e)))
+      (broadcast_translations 1 [2; 3] {| m_text := [104]; m_atts := []; m_qrs := [];
+                                         tr_text := [(2, [[105]]); (3, [[]])]; tr_atts := []; tr_qrs := [] |})
+  = [(1, [104]); (2, [105]); (3, [104])].
+Proof. reflexivity. Qed.
